@@ -1,6 +1,6 @@
 (* C06 -- property theorems only: statement + exact + Print Assumptions. *)
 From Coq Require Import List ZArith Bool String.
-From LJT Require Import model.Transform model.TransformSpec
+From LJT Require Import model.Transform model.TransformSpec model.TransformExt proofs.TransformExtProofs
   proofs.TransformProofs proofs.TransformPlane proofs.TransformImage proofs.TransformGeneral proofs.TransformPerfect proofs.TransformLoops proofs.TransformTjSweep proofs.TransformTjSize
   gen.GenXform proofs.TransformGenFacts.
 Import ListNotations.
@@ -382,6 +382,34 @@ Theorem C06_source_tj_errpaths :
 Proof. exact tj_errpaths_from_source. Qed.
 Print Assumptions C06_source_tj_errpaths.
 
+(* (14) CROP EXTENSION (round 4), reachable from tj3Transform and jpegtran: JXFORM_NONE with a region
+   wider/taller than the image and JCROP_POS extents reaches do_crop_ext_zero only (turbojpeg.c never sets
+   JCROP_FORCE / JCROP_REFLECT: C06_source_tj_reachable).  Inside the whole-iMCU source area placed at
+   the crop offset the output blocks ARE the source blocks; the canvas around it, and the source's
+   partial edge iMCU in an extended direction, are zero blocks. *)
+Theorem C06_crop_ext_zero_spec : forall g ex ey src x y,
+  geom_ok g -> 0 <= x -> 0 <= y ->
+  do_crop_ext_zero g ex ey src x y = ext_spec g ex ey src x y.
+Proof. exact do_crop_ext_zero_spec. Qed.
+Print Assumptions C06_crop_ext_zero_spec.
+
+Theorem C06_transform2_ext_blocks : forall im o im',
+  request_workspace im o = inl ECropExt -> transform2 im o = inr im' ->
+  Forall (fun c => 1 <= c_hs c /\ 1 <= c_vs c) (i_comps im) ->
+  opts_nonneg o -> (forall c, xo_crop o = Some c -> cr_xset c <> ONeg /\ cr_yset c <> ONeg) ->
+  exists p, request_workspace2 im o = inr p /\ i_w im' = p_ow p /\ i_h im' = p_oh p /\
+    let srcs := firstn (Z.to_nat (p_nc p)) (i_comps im) in
+    Forall2 (fun c c' =>
+      c_tq c' = c_tq c /\
+      forall x y, 0 <= x -> 0 <= y ->
+        c_blk c' x y =
+        ext_spec (mkgeom (c_hs c') (c_vs c') (c_wb c') (c_hb c') (c_wb c) (i_w im) (i_h im)
+                         (samp_mh (p_nc p) false srcs) (samp_mv (p_nc p) false srcs) (p_xco p) (p_yco p))
+                 (i_w im <? p_ow p) (i_h im <? p_oh p) (c_blk c) x y)
+      srcs (i_comps im').
+Proof. exact transform2_ext_blocks. Qed.
+Print Assumptions C06_transform2_ext_blocks.
+
 (* ---- non-vacuity ---- *)
 Example C06_ex_whole_image : whole_image ex_image 3 2.
 Proof. exact ex_image_whole. Qed.
@@ -429,3 +457,12 @@ Example C06_ex_nonstd_grid :
   d = 0 /\ tj_mcu_w d = 8 /\ tj_precheck ex_image_2x1 1 ex_tjx_off = Some EAlign /\
   tj_precheck ex_image_2x1 1 (mktjx XNone false false false true 16 8 16 16) = None.
 Proof. exact ex_nonstd_grid. Qed.
+
+(* 40 px wide 4:2:0 luminance (2 whole iMCUs + a partial one) extended in x at offset one iMCU: canvas zero,
+   whole iMCUs copied, the partial edge iMCU zeroed *)
+Example C06_ex_crop_extension :
+  let g := mkgeom 2 2 6 2 3 40 16 2 2 1 0 in
+  let src := fun x y => repeat (1 + x + 10 * y) 64%nat in
+  ext_spec g true false src 0 0 = zero_blk /\ ext_spec g true false src 2 1 = src 0 1 /\
+  ext_spec g true false src 5 1 = src 3 1 /\ ext_spec g true false src 6 0 = zero_blk.
+Proof. exact ext_spec_example. Qed.
